@@ -367,9 +367,9 @@ func c20Foreign(chk *fw.Check) int {
 // (disk) must still have its store directory.
 func c20Histories(chk *fw.Check, tier string) fw.HStats {
 	c := newC11Cast()
-	depth := 3
+	depth := 4
 	if tier == "thorough" {
-		depth = 4
+		depth = 6
 	}
 	total := fw.HStats{}
 	for _, cfg := range []c11Cfg{{false, true}, {true, true}, {false, false}} {
